@@ -1,6 +1,7 @@
 package main
 
 import (
+	"archive/zip"
 	"io"
 	"bytes"
 	"fmt"
@@ -366,6 +367,10 @@ func runNumCase(ops []numOp) (coq string, fail *OracleFailure, nOK int) {
 					setFail("saves", fmt.Sprintf("op %d: %v", i, err))
 					return
 				}
+				if op.Via == "foreign" {
+					// the numbering and notes parts as another producer writes them: the same content under another prefix
+					data = otherPrefix(data, []string{"word/numbering.xml", "word/footnotes.xml", "word/endnotes.xml"}, fmt.Sprintf("%s%d", []string{"ns", "W", "x"}[i%3], i)) // (a fresh prefix each time: an earlier one may still be declared)
+				}
 				nd, err := document.OpenFromMemory(io.NopCloser(bytes.NewReader(data)))
 				if err != nil {
 					setFail("reopens", fmt.Sprintf("op %d: %v", i, err))
@@ -536,7 +541,11 @@ func runC15(cfg *runCfg) error {
 			// save and open, then go on with the opened document (before any table of contents: the level a table was
 			// generated with is not stored in the file)
 			if canGen && cr.chance(7) {
-				ops = append(ops, numOp{Kind: "Reopen"})
+				via := ""
+				if cr.chance(40) {
+					via = "foreign"
+				}
+				ops = append(ops, numOp{Kind: "Reopen", Via: via})
 			}
 			op := genNumOp(cr, canGen)
 			if op.Kind == "Gen" {
@@ -651,4 +660,42 @@ func autoTOCStream(res *Result, r *rng, n int) {
 			}
 		}
 	}
+}
+
+// otherPrefix rewrites the named parts of a package so that the WordprocessingML namespace is bound to another prefix
+// (the parts are the library's own output: every "w:" in them is the prefix)
+func otherPrefix(data []byte, names []string, pfx string) []byte {
+	zr, err := zip.NewReader(bytes.NewReader(data), int64(len(data)))
+	if err != nil {
+		return data
+	}
+	want := map[string]bool{}
+	for _, n := range names {
+		want[n] = true
+	}
+	var out bytes.Buffer
+	zw := zip.NewWriter(&out)
+	for _, f := range zr.File {
+		rc, err := f.Open()
+		if err != nil {
+			return data
+		}
+		b, _ := io.ReadAll(rc)
+		rc.Close()
+		if want[f.Name] {
+			t := string(b)
+			t = strings.ReplaceAll(t, "<w:", "<"+pfx+":")
+			t = strings.ReplaceAll(t, "</w:", "</"+pfx+":")
+			t = strings.ReplaceAll(t, " w:", " "+pfx+":")
+			t = strings.ReplaceAll(t, "xmlns:w=", "xmlns:"+pfx+"=")
+			b = []byte(t)
+		}
+		w, err := zw.Create(f.Name)
+		if err != nil {
+			return data
+		}
+		w.Write(b)
+	}
+	zw.Close()
+	return out.Bytes()
 }
